@@ -157,7 +157,39 @@ def reported_positions(ex, n):
     return pos
 
 
-def check_case(ctx, f, data, n, rng, mo=None):
+def parse_gen(mo):
+    """`ok x:t,t:b-e b-e ; y::none` -> {x: [[b, e], ...] | None}; None if the line is not an ok-line."""
+    if not mo.startswith("ok"):
+        return None
+    out = {}
+    for item in mo[2:].split(";"):
+        item = item.strip()
+        if not item:
+            continue
+        x, _, ivs = item.split(":")
+        out[x] = None if ivs.strip() == "none" else [[int(p.split("-")[0]), int(p.split("-")[1])] for p in ivs.split()]
+    return out
+
+
+def compare_gen(ctx, what, ex, mg, text, rep):
+    """The intervals recorded by the real explainer for the variables against the run of the translated code (`explainG`:
+    the functions of explanations.py and the table of explainer.py as translated on this run): exact lists."""
+    g = parse_gen(mg)
+    if g is None:
+        ctx.diffs.append(Violation("translated explainer fails on %s (%s): %s" % (text, what, mg), dict(rep, model_gen=mg),
+                                   failing_input=False, stream="expl/translated"))
+        return
+    for v, ivs in ex.items():
+        want = g.get(v)
+        if [list(i) for i in ivs] != (want or []):
+            ctx.diffs.append(Violation("explainer records %r for %r on %s (%s), the translated code run by the model %r"
+                                       % (ivs, v, text, what, want), dict(rep, model_gen=mg), failing_input=False,
+                                       stream="expl/translated"))
+            return
+    ctx.count("translated-explainer agrees")
+
+
+def check_case(ctx, f, data, n, rng, mo=None, mg=None):
     vs = sorted(data)
     text = "out = " + F.to_text(f)
     out = evaluate_and_explain(text, vs, data, n)
@@ -174,6 +206,8 @@ def check_case(ctx, f, data, n, rng, mo=None):
         ctx.count("satisfied")
         return None
     ctx.count("violated")
+    if mg is not None:
+        compare_gen(ctx, "explain()", ex, mg, text, rep)
     pos = reported_positions(ex, n)
     # correspondence: positions reported by the mirror of the explainer
     if mo is None:
@@ -259,14 +293,15 @@ def explore(ctx, rng, count):
             continue
         cases.append((f, data, n, kind))
     mos = common.driver_run([disc.proto_case("explain", f, data, n) for f, data, n, _ in cases])
-    for (f, data, n, kind), mo in zip(cases, mos):
+    mgs = common.driver_run(["explaingen | %s | %d | 0 | spec | %s" % (F.to_proto(f), n, disc.sigs(data)) for f, data, n, _ in cases])
+    for (f, data, n, kind), mo, mg in zip(cases, mos, mgs):
         ctx.count(kind)
         for o in F.ops(f):
             if o[:2] in ("b:", "u:", "t1", "tb") and o.split(":")[1] in ("and", "or", "implies", "not", "iff", "xor", "prev", "sprev", "next", "snext",
                                                                         "once", "hist", "ev", "alw"):
                 ctx.count("op:" + o)
         ctx.evaluations += 1
-        v = check_case(ctx, f, data, n, rng, mo)
+        v = check_case(ctx, f, data, n, rng, mo, mg)
         if v is None:
             ctx.traces_validated += 1
             if len(ctx.samples) < 3 and F.depth(f) >= 3:
@@ -341,7 +376,8 @@ def rule_stream(ctx, rng, count):
         lines.append("explainat | %s | %d | %d | %s | %s" % (F.to_proto(f), n, 1 if flag else 0, " ".join("%d-%d" % (b, e) for b, e in ivs),
                                                            disc.sigs(data)))
     outs = common.driver_run(lines)
-    for (f, n, vs, data, ivs, flag), mo in zip(cases, outs):
+    gens = common.driver_run([l.replace("explainat |", "explaingen |", 1) for l in lines])
+    for (f, n, vs, data, ivs, flag), mo, mg in zip(cases, outs, gens):
         ctx.evaluations += 1
         ctx.count("rule:" + ":".join(str(x) for x in f[:2]) + ("/sat" if flag else "/unsat"))
         text = "out = " + F.to_text(f)
@@ -353,6 +389,8 @@ def rule_stream(ctx, rng, count):
                                        failing_input=False, stream="expl/rules"))
             continue
         pos = reported_positions(out[1], n)
+        if ivs:
+            compare_gen(ctx, "started with %r / %s" % (ivs, flag), out[1], mg, text, rep)
         if not mo.startswith("ok"):
             ctx.diffs.append(Violation("mirror rejects %s: %s" % (text, mo), rep, failing_input=False, stream="expl/rules"))
             continue
